@@ -1008,6 +1008,14 @@ func (e *Env) evalCall(x *ECall) Val {
 		}
 		un := g.declareUF("ifval:"+typeStr(gt), []string{SInt}, g.sorts.SortOf(gt))
 		return g.goVal(app(un, i.T), gt)
+	case "emptyset":
+		// emptyset(T): the empty set of elements of type T
+		if len(x.Args) != 1 {
+			efail("emptyset(T)")
+		}
+		ks, _ := e.resolveType(exprString(x.Args[0]))
+		srt := arrSort(ks, SBool)
+		return Val{T: fmt.Sprintf("((as const %s) false)", srt), Sort: srt}
 	case "isnil":
 		v := arg(0)
 		if v.Sort == SSlice {
